@@ -72,6 +72,80 @@ mod verif_c12 {
     // One-word lexicon image: [offset table: u32 = 4][record]. The record has empty strings and
     // arrays; head word length, POS id and dictionary-form id are symbolic.
     // layout: surface len(0) | head_word_length(1 byte <127) | pos_id u16 | norm len(0) | dic_form i32 | reading len(0) | 4 x array len(0)
+    /// References of a user-dictionary word are re-stamped per list, and only the requested lists are loaded.
+    fn split_restamp(d: u8, which: u8) {
+        let a: u32 = kani::any();
+        let b: u32 = kani::any();
+        let w: u32 = kani::any();
+        let (ab, bb, wb) = (a.to_le_bytes(), b.to_le_bytes(), w.to_le_bytes());
+        let img: &'static [u8] = Box::leak(Box::new([
+            4u8, 0, 0, 0,
+            0, 1, 0, 0, 0, 0xff, 0xff, 0xff, 0xff, 0, // surface "" | key length 1 | pos 0 | norm "" | dic form -1 | reading ""
+            1, ab[0], ab[1], ab[2], ab[3], // A split: one reference
+            1, bb[0], bb[1], bb[2], bb[3], // B split: one reference
+            1, wb[0], wb[1], wb[2], wb[3], // word structure: one reference
+            0,
+        ]));
+        let mut set = LexiconSet::new(Lexicon::verif_with_infos(img, 1, false), 3);
+        let _ = set.append(Lexicon::verif_with_infos(img, 1, false), 3);
+        let _ = set.append(Lexicon::verif_with_infos(img, 1, false), 3);
+        // the requested lists are concrete per harness (a symbolic request multiplies the parser paths: > 25 min)
+        let subset = match which {
+            0 => InfoSubset::SPLIT_A,
+            1 => InfoSubset::SPLIT_B,
+            2 => InfoSubset::WORD_STRUCTURE,
+            _ => InfoSubset::SPLIT_A | InfoSubset::SPLIT_B | InfoSubset::WORD_STRUCTURE,
+        };
+        let r = set.get_word_info_subset(WordId::new(d, 0), subset);
+        assert!(r.is_ok());
+        let want = |raw: u32| -> WordId {
+            let id = WordId::from_raw(raw);
+            if id.dic() == 0 { id } else { WordId::new(d, id.word()) }
+        };
+        if let Ok(wi) = &r {
+            if subset.contains(InfoSubset::SPLIT_A) {
+                assert!(wi.a_unit_split().len() == 1 && wi.a_unit_split()[0] == want(a), "A-split reference: system words unchanged, others point into the owning dictionary");
+            }
+            if subset.contains(InfoSubset::SPLIT_B) {
+                assert!(wi.b_unit_split().len() == 1 && wi.b_unit_split()[0] == want(b), "B-split reference re-stamped with the owning dictionary");
+            }
+            if subset.contains(InfoSubset::WORD_STRUCTURE) {
+                assert!(wi.word_structure().len() == 1 && wi.word_structure()[0] == want(w), "word-structure reference re-stamped with the owning dictionary");
+            }
+        }
+        kani::cover!(WordId::from_raw(b).dic() == 1, "B-split reference written as U-reference");
+        kani::cover!(WordId::from_raw(a).dic() == 0 && WordId::from_raw(w).dic() == 1, "mixed system / own-dictionary references");
+        std::mem::forget(r);
+        std::mem::forget(set);
+    }
+
+    //@H c12_split_restamp_b_only_d2
+    #[kani::proof]
+    #[kani::unwind(20)]
+    #[kani::stub(alloc::fmt::format, stub_format)]
+    fn c12_split_restamp_b_only_d2() {
+        split_restamp(2, 1);
+    }
+    //@END
+
+    //@H c12_split_restamp_all_d2
+    #[kani::proof]
+    #[kani::unwind(20)]
+    #[kani::stub(alloc::fmt::format, stub_format)]
+    fn c12_split_restamp_all_d2() {
+        split_restamp(2, 3);
+    }
+    //@END
+
+    //@H c12_split_restamp_a_only_d1
+    #[kani::proof]
+    #[kani::unwind(20)]
+    #[kani::stub(alloc::fmt::format, stub_format)]
+    fn c12_split_restamp_a_only_d1() {
+        split_restamp(1, 0);
+    }
+    //@END
+
     /// `d` is concrete per harness: a symbolic dictionary number makes `lexicons[d]` (and with it
     /// every byte the parser reads) a symbolic-pointer access (measured: 600 s instead of 30 s)
     fn pos_rebase(d: u8) {
